@@ -13,7 +13,7 @@
 (* model.compute_mro.init_finalbaseobjects, mro.mro, defaultPostProcess.   *)
 (*                                                                         *)
 (* A project (from the harness, JSON) is                                   *)
-(*   [mods : Seq([name, par, pkg, hasAll, all, ops, broken]), priv : Seq(name)]      *)
+(*   [mods : Seq([name, par, pkg, hasAll, all, allform, allsplit, ops, broken]), priv : Seq(name)] *)
 (* with mods[i].par the index of the containing package (0 = root) and     *)
 (* ops the flattened module body:                                          *)
 (*   [k |-> "from",  lvl, m, orig, as]     from <lvl dots><m> import orig as as      *)
@@ -134,14 +134,21 @@ OnDemand == /\ InBody /\ Op.k \in {"from", "star", "import"} /\ FirstNeeded # <<
             /\ UNCHANGED <<st, mobj, classes, phase, post>>
 
 \* ---------------------------------------------------------------- _handleReExport / alias binding of one name
-CurExports(s) == IF IsModCls(Cls(s, Cur)) /\ Mod(Top.mod).hasAll THEN SeqRange(Mod(Top.mod).all) ELSE {}
+\* What pydoctor READS as __all__ (astbuilder.processModuleAST: findModuleLevelAssign + parseAll, before the module is walked):
+\* the last statement of the module body of the form `__all__ = <list or tuple literal>`.  Mod(m).all is the value __all__ has
+\* when the module is imported; Mod(m).allform says how the source writes it, allsplit how many names the first statement has
+\* for the forms written in two parts.  An augmented assignment, .extend() / .append(), a concatenation or an assignment
+\* nested in an `if` are not read.
+ReadsAll(m) == Mod(m).hasAll /\ Mod(m).allform \notin {"concat", "conditional"}
+AllRead(m) == IF Mod(m).allform \in {"augmented", "extend", "append"} THEN SubSeq(Mod(m).all, 1, Mod(m).allsplit) ELSE Mod(m).all
+CurExports(s) == IF IsModCls(Cls(s, Cur)) /\ ReadsAll(Top.mod) THEN SeqRange(AllRead(Top.mod)) ELSE {}
 \* returns the new registry state
 BindOne(s, modq, m, orig, as, fallback) ==
   LET isM == m # NoObj /\ IsModCls(Cls(s, m))
       ob  == IF ~isM THEN NoObj
              ELSE IF orig \in DOMAIN s.cont[m] THEN s.cont[m][orig] ELSE ResolveName(s, m, <<orig>>, BO)
       omi == IF isM THEN s.objs[m].site.m ELSE 0
-      originListsIt == isM /\ mstate[omi] # "UNPROCESSED" /\ ~Mod(omi).broken /\ Mod(omi).hasAll /\ orig \in SeqRange(Mod(omi).all)
+      originListsIt == isM /\ mstate[omi] # "UNPROCESSED" /\ ~Mod(omi).broken /\ ReadsAll(omi) /\ orig \in SeqRange(AllRead(omi))
       RECURSIVE AncestorsOf(_)
       AncestorsOf(x) == IF x = NoObj THEN {} ELSE {x} \cup AncestorsOf(s.objs[x].par)
       \* an object is not moved into itself or one of its members, a root stays where it is, modules live in packages only
@@ -160,7 +167,7 @@ ExecFrom == /\ InBody /\ Op.k = "from" /\ FirstNeeded = <<>>
 
 \* names a star import brings in: __all__ or the public names of contents then of the alias table, in dict order
 StarNames(s, m) == LET mi == s.objs[m].site.m IN
-                   IF ~Mod(mi).broken /\ mstate[mi] # "UNPROCESSED" /\ Mod(mi).hasAll THEN Mod(mi).all
+                   IF ~Mod(mi).broken /\ mstate[mi] # "UNPROCESSED" /\ ReadsAll(mi) THEN AllRead(mi)
                    ELSE SelectSeq(s.ord[m] \o s.aord[m], LAMBDA x : x \notin Priv)
 RECURSIVE BindStar(_, _, _, _, _)
 BindStar(s, q, m, names, i) ==
